@@ -34,7 +34,8 @@ ASSUMPTIONS = ["diagnostic lines are recognised in native and GNU format with LA
 ENOSPC, EIO, EACCES = 28, 5, 13
 FATAL_MARKS = (b"fatal error, assembly terminated", b"too many errors, assembly terminated")
 RE_NATIVE = re.compile(rb"^> > > (.+?): (error|warning)( #\d+)?: ")
-RE_GNU = re.compile(rb"^([^\s>][^\s:]*):(\d+)(:\d+)?( #\d+)?: (warning( #\d+)?: )?")
+# a diagnostic issued after the source has been closed (end-of-pass checks) carries the position INTERNAL, no line
+RE_GNU = re.compile(rb"^(?:([^\s>][^\s:]*):(\d+)(:\d+)?|INTERNAL)( #\d+)?: (warning( #\d+)?: )?")
 RE_SUM_ERR = re.compile(rb"^\s*(\d+) errors?\s*$")
 RE_SUM_WARN = re.compile(rb"^\s*(\d+) warnings?\s*$")
 
@@ -70,9 +71,14 @@ def gen_source(rng, idx, big=None):
         L += ["\tdfs 300", "fwd%d:\tnop" % idx]
     if rng.chance(0.2):
         L.append("\tinclude \"inc%d.inc\"" % idx)
+    if rng.chance(0.3):
+        # diagnostics that are only issued when the pass ends, after the last source line has been read
+        L.append(rng.choice(LATE).replace("%d", str(idx)))
     return "\n".join(L) + "\n", {"ne": ne, "nw": nw, "fatal": fatal, "fwd": fwd}
 
 
+LATE = ["v%d\tequ 1\n\tpushv st%d,v%d", "\tif 1\n\tnop", "\tsave", "\tsection sec%d\n\tnop", "rec%d\tstruct\nf\tdfs 1",
+        "mac%d\tmacro\n\tnop", "\tphase 100\n\tnop", "\tsave\n\tsave", "v%d\tequ 1\n\tpushv st%d,v%d\n\tpushv su%d,v%d"]
 OPTS = [["-Werror"], ["-maxerrors", "1"], ["-maxerrors", "3"], ["-x"], ["-x", "-x"], ["-n"], ["-w"], ["-L"],
         ["-gnuerrors"], ["-E", "!1"], ["-E", "!2"], ["-E", "err.log"], ["-E"], ["-g", "MAP"], ["-u"], ["-C"],
         ["-a"], ["-c"], ["-P"], ["-M"], ["-G"]]
